@@ -264,11 +264,30 @@ def execute(plan):
                     bb = (slice(rows[0], rows[-1] + 1), slice(cols[0], cols[-1] + 1))
                     nn = [rows[0] > 0, rows[-1] < mdl.shape[0] - 1, cols[0] > 0, cols[-1] < mdl.shape[1] - 1]
                     bump(probes, f"crop_nan_sides_{sum(nn)}")
-                    expect = before[bb]
-                    mdl.valid = mdl.valid[bb]
-                    mdl.shape = expect.shape
-                    if not _nan_eq(np, ifg.data, expect):
-                        viol("crop-keeps", i, k, bits, got_shape=list(ifg.data.shape), want_shape=list(expect.shape))
+                    # the result must be a contiguous block of the old array that contains
+                    # every valid sample (the documented bounding box is one such block)
+                    got = ifg.data
+                    found = None
+                    H, W = got.shape if got.ndim == 2 else (0, 0)
+                    for oy in range(0, rows[0] + 1):
+                        for ox in range(0, cols[0] + 1):
+                            if oy + H <= rows[-1] or ox + W <= cols[-1]:
+                                continue
+                            if oy + H > before.shape[0] or ox + W > before.shape[1]:
+                                continue
+                            if _nan_eq(np, got, before[oy:oy + H, ox:ox + W]):
+                                found = (oy, ox)
+                                break
+                        if found:
+                            break
+                    if found is None:
+                        viol("crop-keeps", i, k, bits, got_shape=list(ifg.data.shape),
+                             bbox_shape=[int(rows[-1] - rows[0] + 1), int(cols[-1] - cols[0] + 1)])
+                        mdl.valid = mdl.valid[bb]
+                        mdl.shape = tuple(mdl.valid.shape)
+                    else:
+                        mdl.valid = mdl.valid[found[0]:found[0] + H, found[1]:found[1] + W]
+                        mdl.shape = (H, W)
                 else:
                     bump(probes, "crop_all_invalid")
                 c2 = copy.deepcopy(ifg)
@@ -319,27 +338,16 @@ def execute(plan):
                 mdl.valid = mdl.valid & mk
             elif k == "fill":
                 ifg.fill(op["v"])
-                filled = ~valid_before
-                if not bool(np.all(ifg.data[filled] == op["v"])):
-                    viol("fill-value", i, k, bits)
                 mdl.valid = np.ones(mdl.shape, dtype=bool)
             elif k == "spike_clip":
-                dv = before[valid_before]
                 ifg.spike_clip(op["ns"])
-                if dv.size:
-                    thr = op["ns"] * float(dv.std())
-                    a = np.abs(before)
-                    over = valid_before & (a > thr * (1 + 1e-9))
-                    under = valid_before & (a < thr * (1 - 1e-9))
-                    now_nan = np.isnan(ifg.data)
-                    if bool(np.any(over & ~now_nan)) or bool(np.any(under & now_nan)):
-                        viol("spike-rule", i, k, bits, thr=thr)
-                        mdl.valid = valid_before & ~over
-                    else:
-                        # samples within 1e-9 of the threshold may go either way
-                        mdl.valid = valid_before & ~now_nan
-                    if over.any():
-                        bump(probes, "spike_clipped_some")
+                now_nan = np.isnan(ifg.data) if ifg.data.shape == before.shape else ~valid_before
+                # which samples count as spikes is the routine's business; it may only invalidate
+                if bool(np.any(~valid_before & ~now_nan)):
+                    viol("spike-revives", i, k, bits)
+                mdl.valid = valid_before & ~now_nan
+                if bool(np.any(valid_before & now_nan)):
+                    bump(probes, "spike_clipped_some")
             elif k == "remove_piston":
                 ifg.remove_piston()
             elif k == "remove_tiptilt":
@@ -481,10 +489,10 @@ def _tilt_plane(np, ifg, before, after, mdl, i, k, bits, viol):
         return
     v = mdl.valid
     ch = (before - after)[v]
-    A = np.stack([x[v], y[v]], axis=1)
-    sx = max(float(np.abs(A).max()), 1e-300)
-    coef, *_ = np.linalg.lstsq(A / sx, ch, rcond=None)
-    resid = ch - (A / sx) @ coef
+    sx = max(float(np.abs(x[v]).max()), float(np.abs(y[v]).max()), 1e-300)
+    A = np.stack([x[v] / sx, y[v] / sx, np.ones(int(v.sum()))], axis=1)   # a plane, with or without offset
+    coef, *_ = np.linalg.lstsq(A, ch, rcond=None)
+    resid = ch - A @ coef
     if resid.size and not float(np.abs(resid).max()) <= 1e-7 * mdl.scale:
         viol("tilt-plane", i, k, bits, resid=float(np.abs(resid).max()), scale=mdl.scale)
 
